@@ -323,7 +323,10 @@ def _r6_splits(ctx: Ctx) -> None:
             d = {"c_cut": px if horizontal else py, "c_oth": py if horizontal else px,
                  "s_cut": pw if horizontal else ph, "s_oth": ph if horizontal else pw}
             return d[what]
-        cut = ("p", 0)
+        # the effective cut: the argument, or the centre coordinate when the argument is negative (the default -1); the
+        # normal form reads 'if x < 0: x = centre' and 'cut = centre if x < 0 else x' alike
+        from framelint.canon import mk_ite
+        cut = mk_ite(mk_lt(("p", 0), k_num(0)), cx, ("p", 0))
         lo = (to_poly(cx) - _half(w)).to_s()
         hi = (to_poly(cx) + _half(w)).to_s()
         p1, p2 = order
@@ -338,7 +341,7 @@ def _r6_splits(ctx: Ctx) -> None:
         check_law(ctx, fi, f"{q}: piece 2 ends at the parent's high border", (to_poly(comp(p2, "c_cut")) + _half(comp(p2, "s_cut"))).to_s(), hi)
         # default cut = centre; cut asserted strictly inside
         ctx.site(fi.where, f"{q}: default cut is the centre and the cut is asserted strictly inside")
-        has_default = any(st[0] == "if" and st[1] == mk_lt(cut, k_num(0)) and st[2] == (("set", cut, cx),) for st in block)
+        has_default = contains(block, cut) and not any(st[0] == "set" and st[1] == ("p", 0) for st in block)
         need = {mk_lt(lo, cut), mk_lt(cut, hi)}
         asserted = set()
         for st in block:
